@@ -931,10 +931,11 @@ func (v *vmT) step() {
 	v.sample()
 }
 
-// probe: the fixed reproducer of finding C06-memclr-stub (DESIGN 7-19):
-// fill past 52 entries (B >= 4), clear, insert 20, range.
+// probe: the fixed reproducer of finding C06-memclr-stub (DESIGN 7-19): fill, clear,
+// insert 20, range.  Fills just below a growth threshold (96, 192, 384 = 6*2^B) make it
+// near certain that a bucket has taken the last preallocated overflow bucket before the clear.
 func (v *vmT) probe() {
-	for _, fill := range []int{53, 120, 210} {
+	for _, fill := range []int{53, 96, 192, 384, 210} {
 		v.remake(-1)
 		for i := 0; i < fill; i++ {
 			v.op++
